@@ -79,6 +79,10 @@ theorem callback_table :
     Gen.Callbacks.registeredFirst = true ∧ Gen.Callbacks.containsEither = true ∧ Gen.Callbacks.unknownIffNoCallback = true := by
   decide
 
+/-- the hand-over of a reply to the protocol thread cannot lose its wake-up: `send_message` queues the block, then triggers
+(generated from the statement order; that a frame in `handle`'s result is actually written rests on this) -/
+theorem reply_handed_over : Gen.Callbacks.sendPutBeforeTrigger = true := by decide
+
 /-- a registered callback is the one that runs, also where the handler class has a built-in for the same S/F; without one
 the built-in runs; `hasCallback` holds exactly when one of them runs -/
 theorem registered_callback_wins (env : Env) (s f : Nat) :
